@@ -435,6 +435,15 @@ def foreign_structure_ob(v):
 
 # --------------------------------------------------------------------------
 
+def _tree_equal(a, b):
+    """Equality of two loaded trees: same types and values, dictionary key order aside."""
+    if isinstance(a, dict) and isinstance(b, dict):
+        return set(a) == set(b) and all(_tree_equal(a[k], b[k]) for k in a)
+    if isinstance(a, list) and isinstance(b, list):
+        return len(a) == len(b) and all(_tree_equal(x, y) for x, y in zip(a, b))
+    return type(a) is type(b) and repr(a) == repr(b)
+
+
 def preflight(tier):
     """Contract of the text-layer stub against the real json / yaml libraries."""
     import json
@@ -460,4 +469,28 @@ def preflight(tier):
     except yaml.YAMLError:
         tuple_ok = True
     out.append(("text-layer contract: yaml refuses tuples on load", tuple_ok, ""))
+    # the same contract through the repository's own calls of the libraries (their options included):
+    # a concrete corpus document is written by the real ODMLWriter.to_string and loaded by the real parser;
+    # the resulting tree must be what the stub predicts for DictWriter's output
+    import odml
+    from odml.tools.odmlparser import ODMLWriter
+    from odml.tools.dict_parser import DictWriter
+    from odml.info import FORMAT_VERSION
+    texts = [x for x in corpus if isinstance(x, str) and x]
+    doc = odml.Document(author=" a\x85b ", version="yes", date=dt.date(2020, 1, 2))
+    sec = odml.Section(name="null", type="1e3", parent=doc, definition="x\ny", sec_cardinality=(1, 2))
+    odml.Property(name="texts", values=texts, parent=sec, unit="\u00e9", uncertainty=0, val_cardinality=(None, 99))
+    odml.Property(name="numbers", values=[0, -3, 10 ** 20], parent=sec)
+    odml.Property(name="floats", values=[0.1, 1e300, -0.0], parent=sec, uncertainty=0.5)
+    odml.Property(name="times", values=[dt.time(1, 2, 3)], parent=sec)
+    odml.Property(name="dates", values=[dt.date(2020, 1, 2)], parent=sec)
+    odml.Property(name="datetimes", values=[dt.datetime(2020, 1, 2, 3, 4, 5)], parent=sec)
+    odml.Property(name="tuples", values=["(a;b)"], dtype="2-tuple", parent=sec)
+    wrapped = {"Document": DictWriter().to_dict(doc), "odml-version": FORMAT_VERSION}
+    real = json.loads(ODMLWriter("JSON").to_string(doc))
+    out.append(("text-layer contract through ODMLWriter('JSON').to_string", _tree_equal(real, textlayer.json_layer(wrapped)),
+                "corpus document with %d text values" % len(texts)))
+    real = yaml.safe_load(ODMLWriter("YAML").to_string(doc))
+    out.append(("text-layer contract through ODMLWriter('YAML').to_string", _tree_equal(real, textlayer.yaml_layer(wrapped)),
+                "corpus document with %d text values" % len(texts)))
     return out
